@@ -990,4 +990,295 @@ Section Nodes.
       { eapply upd_step_ok; [exact G|exact P|apply Hwf; left; reflexivity|exact E]. }
       destruct e; inversion H; subst; exact S.
   Qed.
+
+  Lemma in_nop_ok n0 n1 o nx r n2 nx2 :
+    gnode n0 -> pre_nop T n0 o = Some None ->
+    gnode n1 -> ids_pre (node_ids n1) nx ->
+    (forall v, In v (nop_stored o) -> wf_val v = true) ->
+    in_nop T n1 o nx = Some (r, n2, nx2) -> step_ok n1 nx n2 nx2.
+  Proof.
+    intros G0 Hpre G1 P Hwf H.
+    destruct n0 as [v0|i0 c0 l0|i0 c0 d0], o as [lo|dop0]; simpl in Hpre; try discriminate;
+      destruct n1 as [v1|i1 c1 l1|i1 c1 d1]; simpl in H; try discriminate;
+      inversion Hpre as [Hpre']; inversion H as [H'].
+    - eapply in_lop_ok; [exact G1|exact P| |exact Hpre'|exact Hwf|exact H'].
+      eapply gnode_in_backend; [exact G0|reflexivity].
+    - eapply in_dop_ok; [exact G1|exact P| |exact Hpre'|exact Hwf|exact H'].
+      eapply gnode_in_backend; [exact G0|reflexivity].
+  Qed.
+
+  Lemma step_ok_trans a nx b' nx1 c nx2 :
+    step_ok a nx b' nx1 -> step_ok b' nx1 c nx2 -> step_ok a nx c nx2.
+  Proof.
+    intros [_ [A2 [A3 [A4 A5]]]] [B1 [B2 [B3 [B4 B5]]]].
+    split; [exact B1|]. split; [eapply ids_step_trans; eauto|].
+    repeat split; congruence.
+  Qed.
+
+  Lemma step_ok_pre n nx n2 nx2 :
+    ids_pre (node_ids n) nx -> step_ok n nx n2 nx2 -> ids_pre (node_ids n2) nx2.
+  Proof. intros P [_ [S _]]. eapply ids_step_pre; eauto. Qed.
+
+  Lemma find_sub_ok h root nx n1 :
+    gnode root -> ids_pre (node_ids root) nx -> find_node h root = Some n1 ->
+    gnode n1 /\ ids_pre (node_ids n1) nx.
+  Proof.
+    intros G P F. split.
+    - destruct (find_replace_gnode h n1 root n1 (proj1 P) F G) as [A _]. exact A.
+    - destruct (find_replace_ids h n1 root n1 (proj1 P) F) as [pre [post [E _]]].
+      rewrite E in P. destruct (ids_pre_app _ _ _ P) as [_ P2].
+      destruct (ids_pre_app _ _ _ P2) as [P3 _]. exact P3.
+  Qed.
+
+  Lemma replace_step_ok h root nx n1 n2 nx2 :
+    gnode root -> ids_pre (node_ids root) nx -> find_node h root = Some n1 ->
+    step_ok n1 nx n2 nx2 -> step_ok root nx (replace_node h n2 root) nx2.
+  Proof.
+    intros G P F [S1 [S2 [S3 [S4 S5]]]]. split; [|split].
+    - destruct (find_replace_gnode h n2 root n1 (proj1 P) F G) as [_ A]. apply A. exact S1.
+    - destruct (find_replace_ids h n2 root n1 (proj1 P) F) as [pre [post [E1 E2]]].
+      rewrite E1 in P |- *. rewrite E2. apply ids_step_mid; assumption.
+    - eapply replace_head; eauto.
+  Qed.
 End Nodes.
+
+Lemma NoDup_keys_unique {A} (d : list (key * A)) : NoDup (map fst d) -> keys_unique d = true.
+Proof.
+  induction d as [|[k v] d IH]; simpl; intros H; [reflexivity|].
+  inversion H as [|? ? Hn Hd]; subst. apply alookup_None in Hn. rewrite Hn. auto.
+Qed.
+
+Section NewRoots.
+  Variables (T : class_table) (b : nat) (L : lang).
+  Hypothesis HB : backend_has_both T b = true.
+  Hypothesis HU : uniform_backend T b L = true.
+
+  Lemma fb_entries c d : forall nx d' nx1,
+    in_backend T b c = true -> val_ok L (VD d) = true ->
+    Forall (fun kv : key * val => wf_val (snd kv) = true) d ->
+    map_st (fun (kv : key * val) st =>
+              let (n, st') := from_base T c (snd kv) st in ((fst kv, n), st')) d nx = (d', nx1) ->
+    Forall (gentry T b L) d' /\ map fst d' = map fst d /\ ids_step [] nx (eids d') nx1.
+  Proof.
+    induction d as [|[k v] d IH]; intros nx d' nx1 Hc Hv Hw H; simpl in H.
+    - inversion H; subst. split; [constructor|]. split; [reflexivity|]. apply fresh_nil. lia.
+    - destruct (from_base T c v nx) as [n s1] eqn:E.
+      destruct (map_st _ d s1) as [ys s2] eqn:E2. inversion H; subst. clear H.
+      rewrite val_ok_VD_cons in Hv. apply andb_true_iff in Hv. destruct Hv as [Hv Hvd].
+      apply andb_true_iff in Hv. destruct Hv as [Hk Hv].
+      inversion Hw as [|? ? Hw1 Hw2]; subst. simpl in Hw1.
+      destruct (fb_one T b L HB c v nx n s1 Hc Hv Hw1 E) as [Gn [Fn _]].
+      destruct (IH s1 ys nx1 Hc Hvd Hw2 E2) as [A1 [A2 A3]].
+      split; [constructor; [split; assumption|exact A1]|]. split; [simpl; congruence|].
+      pose proof (ids_step_app [] [] nx (node_ids n) s1 (eids ys) nx1) as HH. simpl in HH.
+      apply HH; auto. split; [constructor|intros i []].
+  Qed.
+End NewRoots.
+
+(* ------------------------------------------------------------------ *)
+(* objects and states                                                  *)
+(* ------------------------------------------------------------------ *)
+
+(* resource ids are unique in the resource map (MExt removes only the first binding) *)
+Definition res_nodup (s : mstate) : Prop := NoDup (map fst (m_res s)).
+
+Lemma kind_of_to_base n : kind_of (to_base n) = node_kind n.
+Proof. destruct n; reflexivity. Qed.
+
+Section Machine.
+  Variable T : class_table.
+  Hypothesis HT : table_ok T = true.
+
+  Notation bk o := (backend_of T (o_cls o)).
+  Notation lg o := (lang_of T (o_cls o)).
+
+  Lemma obj_inv_iff nx o :
+    obj_inv T nx o <->
+    o_cls o < length T /\ node_is_container (o_root o) = true /\ node_cls (o_root o) = Some (o_cls o)
+    /\ gnode T (bk o) (lg o) (o_root o) /\ ids_pre (node_ids (o_root o)) nx.
+  Proof.
+    unfold gnode, wfn, ids_pre. split.
+    - intros []. repeat split; assumption.
+    - intros [H1 [H2 [H3 [[[H4 [H5 [H6 H7]]] H8] [H9 H10]]]]]. constructor; assumption.
+  Qed.
+
+  Lemma obj_inv_mono nx nx' o : obj_inv T nx o -> nx <= nx' -> obj_inv T nx' o.
+  Proof.
+    intros H Hle. apply obj_inv_iff in H. apply obj_inv_iff.
+    destruct H as [H1 [H2 [H3 [H4 H5]]]].
+    split; [exact H1|]. split; [exact H2|]. split; [exact H3|]. split; [exact H4|].
+    eapply ids_pre_mono; eauto.
+  Qed.
+
+  Lemma obj_inv_step nx o root' nx' :
+    obj_inv T nx o -> step_ok T (bk o) (lg o) (o_root o) nx root' nx' ->
+    obj_inv T nx' (set_root o root').
+  Proof.
+    intros H S. apply obj_inv_iff in H. apply obj_inv_iff.
+    destruct H as [H1 [H2 [H3 [H4 H5]]]]. pose proof S as [S1 [S2 [S3 [S4 S5]]]]. simpl.
+    split; [exact H1|]. split; [|split; [congruence|split; [exact S1|]]].
+    - apply container_iff_id. rewrite S3. apply container_iff_id. exact H2.
+    - eapply ids_step_pre; eauto.
+  Qed.
+
+  (* every object of [objs'] has a counterpart with the same class, resource and kind *)
+  Definition objs_sim (objs objs' : list (nat * obj)) : Prop :=
+    forall oid o', nlookup oid objs' = Some o' ->
+      exists o, nlookup oid objs = Some o /\ o_cls o' = o_cls o /\ o_rid o' = o_rid o
+                /\ node_kind (o_root o') = node_kind (o_root o).
+
+  Lemma objs_sim_refl objs : objs_sim objs objs.
+  Proof. intros oid o H. exists o. auto. Qed.
+
+  Lemma objs_sim_nset objs oid ob root' :
+    nlookup oid objs = Some ob -> node_kind root' = node_kind (o_root ob) ->
+    objs_sim objs (nset oid (set_root ob root') objs).
+  Proof.
+    intros Ho Hk oid' o' H. rewrite nlookup_nset in H. destruct (Nat.eqb oid' oid) eqn:E.
+    - apply Nat.eqb_eq in E. subst oid'. inversion H; subst o'. exists ob. simpl. auto.
+    - exists o'. auto.
+  Qed.
+
+  Lemma same_family_sim s s' :
+    objs_sim (m_objs s) (m_objs s') -> same_family T s -> same_family T s'.
+  Proof.
+    intros Sim SF oid1 o1 oid2 o2 H1 H2 Hr.
+    destruct (Sim _ _ H1) as [p1 [A1 [A2 [A3 A4]]]]. destruct (Sim _ _ H2) as [p2 [B1 [B2 [B3 B4]]]].
+    rewrite A2, A4, B2, B4. apply (SF oid1 p1 oid2 p2 A1 B1). congruence.
+  Qed.
+
+  Lemma content_ok_sim o o' c :
+    o_cls o' = o_cls o -> node_kind (o_root o') = node_kind (o_root o) ->
+    content_ok T o c -> content_ok T o' c.
+  Proof. unfold content_ok. intros -> ->. auto. Qed.
+
+  Lemma res_valid_sim s s' :
+    objs_sim (m_objs s) (m_objs s') -> m_res s' = m_res s -> res_valid T s -> res_valid T s'.
+  Proof.
+    intros Sim Hr RV oid o' c H1 H2. destruct (Sim _ _ H1) as [p [A1 [A2 [A3 A4]]]].
+    rewrite Hr, A3 in H2. eapply content_ok_sim; eauto.
+  Qed.
+
+  Lemma Inv_nset s oid ob root' nx' res' wr' :
+    Inv T s -> nlookup oid (m_objs s) = Some ob ->
+    step_ok T (bk ob) (lg ob) (o_root ob) (m_next s) root' nx' ->
+    Inv T {| m_res := res'; m_writes := wr';
+             m_objs := nset oid (set_root ob root') (m_objs s); m_next := nx' |}.
+  Proof.
+    intros I Ho S oid' o' H. simpl in *. rewrite nlookup_nset in H.
+    destruct (Nat.eqb oid' oid).
+    - inversion H; subst o'. eapply obj_inv_step; [apply (I oid ob Ho)|exact S].
+    - eapply obj_inv_mono; [apply (I oid' o' H)|]. destruct S as [_ [[S _] _]]. exact S.
+  Qed.
+
+  Definition good_state (s : mstate) : Prop :=
+    Inv T s /\ res_valid T s /\ same_family T s /\ res_nodup s.
+
+  Lemma keep_root_pres s oid ob root' nx' :
+    good_state s -> nlookup oid (m_objs s) = Some ob ->
+    step_ok T (bk ob) (lg ob) (o_root ob) (m_next s) root' nx' ->
+    good_state (keep_root s oid ob root' nx').
+  Proof.
+    intros [I [RV [SF RN]]] Ho S.
+    assert (Sim : objs_sim (m_objs s) (m_objs (keep_root s oid ob root' nx'))).
+    { apply objs_sim_nset; [exact Ho|]. destruct S as [_ [_ [_ [_ S]]]]. exact S. }
+    split; [|split; [|split]].
+    - apply Inv_nset; assumption.
+    - eapply res_valid_sim; [exact Sim|reflexivity|exact RV].
+    - eapply same_family_sim; [exact Sim|exact SF].
+    - exact RN.
+  Qed.
+
+  Lemma save_root_pres s oid ob root' nx' :
+    good_state s -> nlookup oid (m_objs s) = Some ob ->
+    step_ok T (bk ob) (lg ob) (o_root ob) (m_next s) root' nx' ->
+    good_state (save_root s oid ob root' nx').
+  Proof.
+    intros [I [RV [SF RN]]] Ho S.
+    assert (Sim : objs_sim (m_objs s) (m_objs (save_root s oid ob root' nx'))).
+    { apply objs_sim_nset; [exact Ho|]. destruct S as [_ [_ [_ [_ S]]]]. exact S. }
+    split; [|split; [|split]].
+    - apply Inv_nset; assumption.
+    - intros oid' o' c H1 H2. destruct (Sim _ _ H1) as [p [A1 [A2 [A3 A4]]]].
+      simpl in H2. rewrite nlookup_nset in H2. destruct (Nat.eqb (o_rid o') (o_rid ob)) eqn:E.
+      + apply Nat.eqb_eq in E. inversion H2; subst c.
+        destruct (SF oid' p oid ob A1 Ho) as [B1 B2]; [congruence|].
+        destruct S as [[Sw Sc] [_ [_ [_ Sk]]]]. unfold content_ok.
+        rewrite A2, B1, A4, B2. split; [exact Sc|]. split.
+        * rewrite <- nku_wf. apply Sw.
+        * rewrite kind_of_to_base. exact Sk.
+      + rewrite A3 in H2. eapply content_ok_sim; [exact A2|exact A4|]. eapply RV; eauto.
+    - eapply same_family_sim; [exact Sim|exact SF].
+    - unfold res_nodup. simpl. apply nset_nodup. exact RN.
+  Qed.
+
+  Lemma obj_facts s oid ob :
+    Inv T s -> nlookup oid (m_objs s) = Some ob ->
+    backend_has_both T (bk ob) = true /\ uniform_backend T (bk ob) (lg ob) = true
+    /\ gnode T (bk ob) (lg ob) (o_root ob) /\ ids_pre (node_ids (o_root ob)) (m_next s).
+  Proof.
+    intros I Ho. pose proof (I oid ob Ho) as H. apply obj_inv_iff in H.
+    destruct H as [H1 [_ [_ [H4 H5]]]]. destruct (cls_facts T (o_cls ob) HT H1) as [_ [A [B _]]].
+    auto.
+  Qed.
+
+  Lemma load_ok s oid ob (sk : bool) root1 nx1 e :
+    good_state s -> nlookup oid (m_objs s) = Some ob ->
+    (if sk then (o_root ob, m_next s, None) else load_root T s ob) = (root1, nx1, e) ->
+    step_ok T (bk ob) (lg ob) (o_root ob) (m_next s) root1 nx1.
+  Proof.
+    intros [I [RV _]] Ho H. destruct (obj_facts s oid ob I Ho) as [HB [HU [G P]]].
+    assert (Same : step_ok T (bk ob) (lg ob) (o_root ob) (m_next s) (o_root ob) (m_next s))
+      by (apply step_ok_same; assumption).
+    destruct sk; [inversion H; subst; exact Same|].
+    unfold load_root in H. destruct (nlookup (o_rid ob) (m_res s)) as [content|] eqn:Ec.
+    - eapply upd_step_ok; [exact HB|exact HU|exact G|exact P| |exact H].
+      destruct (RV oid ob content Ho Ec) as [_ [W _]]. exact W.
+    - inversion H; subst; exact Same.
+  Qed.
+
+  Lemma mop_cases s oid hid o :
+    good_state s -> (forall v, In v (nop_stored o) -> wf_val v = true) ->
+    fst (step T s (MOp oid hid o)) = s
+    \/ exists ob root' nx', nlookup oid (m_objs s) = Some ob
+         /\ step_ok T (bk ob) (lg ob) (o_root ob) (m_next s) root' nx'
+         /\ (fst (step T s (MOp oid hid o)) = keep_root s oid ob root' nx'
+             \/ fst (step T s (MOp oid hid o)) = save_root s oid ob root' nx').
+  Proof.
+    intros GS Hwf. cbn [step].
+    destruct (nlookup oid (m_objs s)) as [ob|] eqn:Ho; [|left; reflexivity].
+    destruct (find_node hid (o_root ob)) as [n0|] eqn:F0; [|left; reflexivity].
+    destruct (pre_nop T n0 o) as [[e|]|] eqn:Epre; try (left; reflexivity).
+    destruct (obj_facts s oid ob (proj1 GS) Ho) as [HB [HU [G P]]].
+    match goal with
+    | |- context [if ?bb then (o_root ob, m_next s, None) else load_root T s ob] => set (sk := bb)
+    end.
+    destruct (if sk then (o_root ob, m_next s, None) else load_root T s ob)
+      as [[root1 nx1] eo] eqn:El.
+    pose proof (load_ok s oid ob sk root1 nx1 eo GS Ho El) as S1.
+    assert (Keep1 : forall st, st = keep_root s oid ob root1 nx1 \/ st = save_root s oid ob root1 nx1 ->
+              st = s \/ exists ob0 root' nx', Some ob = Some ob0
+                /\ step_ok T (bk ob0) (lg ob0) (o_root ob0) (m_next s) root' nx'
+                /\ (st = keep_root s oid ob0 root' nx' \/ st = save_root s oid ob0 root' nx')).
+    { intros st Hst. right. exists ob, root1, nx1. auto. }
+    destruct eo as [e|]; [apply Keep1; left; reflexivity|].
+    pose proof S1 as [G1 _]. pose proof (step_ok_pre _ _ _ _ _ _ _ P S1) as P1.
+    destruct (find_node hid root1) as [n1|] eqn:F1.
+    2:{ destruct (nop_is_read o); apply Keep1; [left|right]; reflexivity. }
+    destruct (in_nop T n1 o nx1) as [[[[r h] n2] nx2]|] eqn:Ein; [|left; reflexivity].
+    destruct (find_sub_ok T (bk ob) (lg ob) hid (o_root ob) (m_next s) n0 G P F0) as [G0 _].
+    destruct (find_sub_ok T (bk ob) (lg ob) hid root1 nx1 n1 G1 P1 F1) as [Gn1 Pn1].
+    pose proof (in_nop_ok T (bk ob) (lg ob) HB HU n0 n1 o nx1 (r, h) n2 nx2 G0 Epre Gn1 Pn1 Hwf Ein) as S2.
+    pose proof (replace_step_ok T (bk ob) (lg ob) hid root1 nx1 n1 n2 nx2 G1 P1 F1 S2) as S3.
+    pose proof (step_ok_trans _ _ _ _ _ _ _ _ _ S1 S3) as S4.
+    assert (Keep2 : forall st, st = keep_root s oid ob (replace_node hid n2 root1) nx2
+                             \/ st = save_root s oid ob (replace_node hid n2 root1) nx2 ->
+              st = s \/ exists ob0 root' nx', Some ob = Some ob0
+                /\ step_ok T (bk ob0) (lg ob0) (o_root ob0) (m_next s) root' nx'
+                /\ (st = keep_root s oid ob0 root' nx' \/ st = save_root s oid ob0 root' nx')).
+    { intros st Hst. right. exists ob, (replace_node hid n2 root1), nx2. auto. }
+    destruct (nop_is_read o); [apply Keep2; left; reflexivity|].
+    destruct r; [apply Keep2; right; reflexivity|].
+    destruct sk; apply Keep2; [left|right]; reflexivity.
+  Qed.
+End Machine.
